@@ -12,6 +12,8 @@ import (
 
 	sdk "github.com/cosmos/cosmos-sdk/types"
 
+	inctypes "github.com/osmosis-labs/osmosis/v31/x/incentives/types"
+
 	"github.com/osmosis-labs/osmosis/v31/zzverif/core"
 )
 
@@ -24,6 +26,9 @@ var cfgCheap = Config{Name: "cheap", MinValue: 10, PoolUosmo: 1000000, PoolR1: 3
 
 // r1 is worth 10^6 uosmo per unit: the minimum (10 uosmo) buys less than one unit of it.
 var cfgPrecious = Config{Name: "precious", MinValue: 10, PoolUosmo: 1000000000, PoolR1: 1000, R2Pool: 1000000}
+
+// the cheap world plus a concentrated-liquidity pool (NoLock gauges, groups) and a balancer pool to swap on
+var cfgCL = Config{Name: "cl", MinValue: 10, PoolUosmo: 1000000, PoolR1: 3000000, R2Pool: 1000000, CL: true}
 
 // run is one exploration: configuration x seed x depth x alphabet.
 type run struct {
@@ -51,7 +56,29 @@ func alphabet(name string) *Alphabet {
 		{K: "lock", A: "B", Amt: 100, Dur: H1},
 	}
 	adds := []Op{{K: "add", A: "A", C: 0}, {K: "add", A: "B", C: 1}}
+	// CL worlds: external incentive gauges of the concentrated pool (no lock condition)
+	clGauges := []Op{
+		{K: "clgauge", A: "A", C: 2, N: 3},
+		{K: "clgauge", A: "A", Perp: true, C: 0, N: 1},
+		{K: "clgauge", A: "B", C: 1, Fut: true, N: 2},
+		{K: "clgauge", A: "B", C: 4, N: 3},
+		{K: "clgauge", A: "B", Perp: true, C: 1, Fut: true, N: 1},
+		{K: "clgauge", A: "A", C: 0, N: 1},
+	}
+	swaps := []Op{{K: "swap", P: 0, Amt: 1000}, {K: "swap", P: 1, Amt: 3000}}
+	groups := []Op{{K: "group", A: "A", C: 0}, {K: "group", A: "B", C: 2}}
 	switch name {
+	case "cl":
+		// NoLock gauges next to one lock-based gauge and one lock (both kinds in the same epochs), top-ups of every
+		// ledger gauge including the concentrated pool's internal gauge, swaps, one group, pool-incentives allocation
+		return &Alphabet{Gauges: gaugesBase[:1], CLGauges: clGauges[:4], MaxGauges: 2, Adds: adds, Locks: locksBase[:1], MaxLocks: 1, NoLockMgmt: true, Tick: true,
+			Swaps: swaps, Groups: groups[:1], MaxGroups: 1, Allocs: []Op{{K: "alloc", Amt: 1001}}}
+	case "clwide":
+		return &Alphabet{Gauges: gaugesBase[:2], CLGauges: clGauges, MaxGauges: 3, Adds: adds, Locks: locksBase[:2], MaxLocks: 2, Tick: true,
+			Swaps: append(append([]Op{}, swaps...), Op{K: "swap", P: 0, Amt: 5000}), Groups: groups, MaxGroups: 2, Allocs: []Op{{K: "alloc", Amt: 1001}}}
+	case "clnarrow":
+		// deep runs: epochs, top-ups, swaps, allocation; nothing new is created
+		return &Alphabet{MaxGauges: 0, Adds: adds, MaxLocks: 0, NoLockMgmt: true, Swaps: swaps, Allocs: []Op{{K: "alloc", Amt: 1001}}}
 	case "base":
 		return &Alphabet{Gauges: gaugesBase, MaxGauges: 2, Adds: adds, Locks: locksBase, MaxLocks: 4, Partial: 40, Tick: true}
 	case "narrow":
@@ -106,6 +133,13 @@ func planFor(tier string) []run {
 			{cfgCheap, "S3", 3, "base"},
 			{cfgCheap, "init", 4, "base"},
 			{cfgCheap, "S1", 4, "base"},
+			{cfgCL, "N3", 3, "cl"},
+			{cfgCL, "G2", 4, "clnarrow"},
+			{cfgCL, "V0", 3, "cl"},
+			{cfgCL, "N2", 3, "cl"},
+			{cfgCL, "G1", 3, "cl"},
+			{cfgCL, "init", 3, "cl"},
+			{cfgCL, "N1", 4, "cl"},
 		}
 	}
 	return []run{
@@ -122,6 +156,17 @@ func planFor(tier string) []run {
 		{cfgCheap, "S3", 7, "narrow"},
 		{cfgCheap, "S2", 7, "narrow"},
 		{cfgCheap, "S1", 7, "narrow"},
+		{cfgCL, "N3", 4, "cl"},
+		{cfgCL, "G2", 5, "clnarrow"},
+		{cfgCL, "V0", 4, "cl"},
+		{cfgCL, "N2", 4, "cl"},
+		{cfgCL, "G1", 4, "cl"},
+		{cfgCL, "init", 4, "cl"},
+		{cfgCL, "N1", 4, "cl"},
+		{cfgCL, "init", 3, "clwide"},
+		{cfgCL, "G1", 3, "clwide"},
+		{cfgCL, "N1", 6, "clnarrow"},
+		{cfgCL, "G1", 6, "clnarrow"},
 	}
 }
 
@@ -151,6 +196,32 @@ func seedOps(name string) []Op {
 	case "S5":
 		// a perpetual single-denom gauge that has been drained by its first epoch (small top-ups follow)
 		return []Op{{K: "lock", A: "A", Amt: 100, Dur: H1}, {K: "gauge", A: "A", Perp: true, Dur: H1, C: 1, N: 1}, {K: "epoch"}}
+	// CL worlds. Gauge indexes: g#0 = the concentrated pool's internal gauge, g#1 = the volume pool's internal gauge
+	// (both made by pool creation), user gauges from g#2.
+	case "N1":
+		// a lock and a lock-based gauge next to an n=3 NoLock gauge with two reward denoms; first epoch paid by both kinds
+		return []Op{{K: "lock", A: "A", Amt: 100, Dur: H1}, {K: "gauge", A: "A", Dur: H1, C: 0, N: 2},
+			{K: "clgauge", A: "A", C: 2, N: 3}, {K: "epoch"}}
+	case "N2":
+		// a perpetual NoLock gauge that has paid once and was topped up; the internal gauge topped up by a user and by
+		// pool-incentives
+		return []Op{{K: "clgauge", A: "A", Perp: true, C: 0, N: 1}, {K: "epoch"}, {K: "add", A: "A", G: 2, C: 0},
+			{K: "add", A: "B", G: 0, C: 1}, {K: "alloc", Amt: 1001}}
+	case "N3":
+		// an upcoming n=2 NoLock gauge whose start lies after the next epoch end
+		return []Op{{K: "clgauge", A: "B", C: 1, Fut: true, N: 2}}
+	case "V0":
+		// volume on both member pools, nothing else (a group can be created at once)
+		return []Op{{K: "swap", P: 0, Amt: 1000}, {K: "swap", P: 1, Amt: 3000}}
+	case "G1":
+		// volume on both member pools, a perpetual group (through MsgCreateGroup) that has split once and was topped up
+		return []Op{{K: "swap", P: 0, Amt: 1000}, {K: "swap", P: 1, Amt: 3000}, {K: "group", A: "A", C: 0}, {K: "epoch"},
+			{K: "add", A: "A", G: 2, C: 0}, {K: "swap", P: 0, Amt: 1000}}
+	case "G2":
+		// a non-perpetual group (n=3, two denoms) - only constructible at keeper level, the message refuses n != 0 -
+		// next to an n=3 NoLock gauge
+		return []Op{{K: "swap", P: 0, Amt: 1000}, {K: "swap", P: 1, Amt: 3000}, {K: "kgroup", A: "A", C: 2, N: 3},
+			{K: "clgauge", A: "B", C: 2, N: 3}}
 	case "S4":
 		// a gauge holding r2 whose route is then removed (keeper-level step): r2 is "not valuable at all"
 		return []Op{{K: "lock", A: "A", Amt: 100, Dur: H1}, {K: "lock", A: "B", Amt: 333, Dur: H1},
@@ -163,7 +234,7 @@ func seedOps(name string) []Op {
 // ops); only a refused seed op is a harness error.
 func buildSeed(w *World, name string, fail func(a, s, d string)) (sdk.Context, *Ledger, error) {
 	ctx, _ := w.Base.CacheContext()
-	l := &Ledger{}
+	l := w.NewLedger()
 	for _, op := range seedOps(name) {
 		var out string
 		ctx, out = w.Apply(ctx, l, op, fail)
@@ -192,20 +263,23 @@ func runReplay(f *core.Flags, r *core.Result) {
 		r.AddViolation(core.Violation{Property: f.Prop, Assertion: a, Signature: s, Detail: d, Replay: rp})
 	}
 	ctx, _ := w.Base.CacheContext()
-	l := &Ledger{}
+	l := w.NewLedger()
 	step := func(tag string, i int, op Op) {
 		var out string
 		ctx, out = w.Apply(ctx, l, op, fail)
 		fmt.Printf("%s %d %s -> %s   [t=%s h=%d]\n", tag, i, op, out, ctx.BlockTime().Format("15:04:05"), ctx.BlockHeight())
 		w.Check(ctx, l, fail)
-		for _, n := range Accounts {
-			fmt.Printf("     %s: %s", n, w.bal(ctx, core.Acc(n)))
+		for _, n := range w.Tracked {
+			fmt.Printf("     %s: %s", n, w.bal(ctx, w.addr(n)))
 		}
 		fmt.Printf("  module: %s\n", w.bal(ctx, w.IncAddr))
 		for _, g := range l.Gauges {
 			rec, _ := w.App.IncentivesKeeper.GetGaugeByID(ctx, g.ID)
-			fmt.Printf("     gauge %d perp=%v >=%s n=%d: ledger{%s coins=%s dist=%s filled=%d empty=%d} module{coins=%s dist=%s filled=%d}\n",
-				g.ID, g.Perp, g.Dur, g.N, stName[g.Status], g.Coins, g.Dist, g.Filled, g.Empty, rec.Coins, rec.DistributedCoins, rec.FilledEpochs)
+			if rec == nil {
+				rec = &inctypes.Gauge{}
+			}
+			fmt.Printf("     %s gauge %d perp=%v >=%s n=%d: ledger{%s coins=%s dist=%s filled=%d empty=%d gone=%v} module{coins=%s dist=%s filled=%d}\n",
+				kindName[g.Kind], g.ID, g.Perp, g.Dur, g.N, stName[g.Status], g.Coins, g.Dist, g.Filled, g.Empty, g.Gone, rec.Coins, rec.DistributedCoins, rec.FilledEpochs)
 		}
 		r.Transitions++
 		r.States++
@@ -257,6 +331,11 @@ func main() {
 			alphas[rn.Alpha] = string(bz)
 		}
 		names = append(names, rn.name())
+		if rn.Cfg.CL && hashed != nil {
+			hashed = storesCL
+		} else if hashed != nil {
+			hashed = stores
+		}
 		sc := &core.Scenario[Op, *Ledger]{
 			App: w.App, Stores: hashed, Config: rn.Cfg,
 			Enabled:   w.Enabled(al),
@@ -278,7 +357,9 @@ func main() {
 		}
 		ex := core.NewExplorer(sc, f, r)
 		was, t0 := r.Exhaustive, r.Transitions
+		w0 := time.Now()
 		ex.Run(rn.Seed, ctx, l, rn.Depth)
+		completed["max_wall_s "+rn.name()] = float64(int(time.Since(w0).Seconds()*10)) / 10
 		if r.Exhaustive && was {
 			completed["sum_completed "+rn.name()] = 1
 		}
